@@ -745,7 +745,10 @@ def run_c10(case):
     except Exception as e:
         if not core.raised_in_library(e):
             raise
-        raise Aborted(f'library raised {type(e).__name__}: {e}', r.stats)
+        v = Violation('C10.x', f'exception escaped the simulation: {type(e).__name__}: {e}', step=r.step_no,
+                      time=getattr(getattr(r, 'env', None), 'now', None), extra={'kind': 'exception', 'exc': type(e).__name__})
+        v.stats = r.stats
+        raise v
 
 
 def gen_c10(rng):
